@@ -9,7 +9,7 @@ use refmodel::tensor::*;
 use serde_json::{json, Value};
 
 fn fwd(cfg: &ConvCfg) -> FwdCase {
-    FwdCase { op: cfg.op(), leaves: cfg.leaves([false, false]), force_exact: None }
+    FwdCase { op: cfg.op(), leaves: cfg.leaves([false, false]), force_exact: None, second_is_view_of_first: None }
 }
 
 #[derive(Clone, Debug)]
@@ -42,6 +42,7 @@ fn random_case(r: &ConvRecipe) -> Option<FwdCase> {
             LeafSpec { dims: filters.clone(), vals: gen_vals(r.vseed ^ 5, numel(&filters), VKind::Small), tracked: false },
         ],
         force_exact: None,
+        second_is_view_of_first: None,
     })
 }
 
@@ -62,6 +63,27 @@ pub fn campaigns(ctx: &Ctx) -> Stats {
         Some("images up to 4x4 (quick) / 6x6 (thorough), filters up to 3x3 (<= image), both strides 1..3 independently, depth and filter count 1..2 (quick) / 1..3 (thorough), batch absent/[1]/[2]/[3]/[2,2]; exact integer data"),
         |i| Some(fwd(&cfgs[i as usize])),
     ));
+    st.merge(ctx.run_indexed("value-patterns", (N_PATTERNS * N_PATTERNS) as u64 * 3, None, |i| {
+        let (pa, pb) = ((i % N_PATTERNS as u64) as usize, ((i / N_PATTERNS as u64) % N_PATTERNS as u64) as usize);
+        let image: Vec<usize> = [vec![1, 2, 2], vec![2, 1, 2, 2], vec![2, 3, 4]][(i / (N_PATTERNS * N_PATTERNS) as u64) as usize].clone();
+        let depth = image[image.len() - 3];
+        let filters = vec![2, depth, if image[image.len() - 2] > 2 { 2 } else { 1 }, 1];
+        Some(FwdCase { op: refmodel::ir::OpKind::Conv { sr: 1, sc: 1 }, leaves: vec![LeafSpec { dims: image.clone(), vals: pattern_vals(pa, numel(&image), i), tracked: false }, LeafSpec { dims: filters.clone(), vals: pattern_vals(pb, numel(&filters), i + 1), tracked: false }], force_exact: None, second_is_view_of_first: None })
+    }));
+    // output positions per image around typical block lengths (one row of n positions, and near-square layouts)
+    {
+        let nb = BOUNDARY_SIZES.len() as u64;
+        st.merge(ctx.run_indexed("boundary-output-positions", nb * 4, None, |i| {
+            let n = BOUNDARY_SIZES[(i % nb) as usize];
+            let (image, filters, sr, sc): (Vec<usize>, Vec<usize>, usize, usize) = match i / nb {
+                0 => (vec![1, 1, n], vec![2, 1, 1, 1], 1, 1),
+                1 => (vec![2, 1, 2, n + 1], vec![1, 1, 2, 2], 1, 1),
+                2 => (vec![1, n, 2], vec![3, 1, 1, 2], 1, 1),
+                _ => (vec![1, 3, 2 * n], vec![1, 1, 3, 2], 1, 2),
+            };
+            Some(FwdCase { op: refmodel::ir::OpKind::Conv { sr, sc }, leaves: vec![LeafSpec { dims: image.clone(), vals: gen_vals(i, numel(&image), VKind::Int), tracked: false }, LeafSpec { dims: filters.clone(), vals: gen_vals(i + 1, numel(&filters), VKind::Int), tracked: false }], force_exact: None, second_is_view_of_first: None })
+        }));
+    }
     let total = t.pick(15000u64, 300000);
     let mxi = t.pick(10usize, 14);
     let strat = move || {
